@@ -19,6 +19,8 @@ package reflect
 import (
 	"errors"
 	"unsafe"
+
+	"github.com/cloudwego/frugal/internal/defs"
 )
 
 var mapAppendFuncs = map[struct{ k, v ttype }]appendFuncType{}
@@ -28,6 +30,13 @@ func updateMapAppendFunc(t *tType) {
 		panic("[bug] type mismatch, got: " + ttype2str(t.T))
 	}
 
+	if t.V.Tag == defs.T_binary {
+		// binary shares tSTRING with string, but map[K][]byte must not take the
+		// (K, STRING) fast paths: they cast the map to map[K]string, whose
+		// value slots have a different size.
+		t.AppendFunc = appendMapAnyAny
+		return
+	}
 	f, ok := mapAppendFuncs[struct{ k, v ttype }{k: t.K.T, v: t.V.T}]
 	if ok {
 		t.AppendFunc = f
